@@ -187,3 +187,87 @@ Proof.
       pose proof (maxR_ge r s n ltac:(lia)). pose proof (Hs n). nra. }
     apply G. lia.
 Qed.
+
+(* ------------------------------------------------------------------------------------------------
+   Schur test: ||A x||_2^2 <= ||A||_inf ||A||_1 ||x||_2^2 for every vector x, i.e. the spectral norm (any bound of ||A x|| over unit x,
+   in particular the largest singular value) is at most sqrt(||A||_1 ||A||_inf). *)
+Lemma weighted_cs n (al xi : nat -> R) : (forall j, 0 <= al j) ->
+  let S := @sumR RR n (fun j => al j * xi j) in let A := @sumR RR n al in let B := @sumR RR n (fun j => al j * (xi j * xi j)) in
+  0 <= A /\ 0 <= B /\ S * S <= A * B.
+Proof.
+  intros Ha. induction n as [|n IH]; cbn [sumR]; rr; [repeat split; lra|].
+  destruct IH as (HA & HB & HS). cbv zeta in *. rr in HA. rr in HB. rr in HS.
+  set (S := @sumR RR n (fun j => al j * xi j)) in *. set (A := @sumR RR n al) in *. set (B := @sumR RR n (fun j => al j * (xi j * xi j))) in *.
+  pose proof (Ha n) as Hn. set (a := al n) in *. set (x := xi n) in *.
+  assert (Hx2 : 0 <= x * x) by nra.
+  repeat split; [lra | nra |].
+  assert (Hk : 2 * (x * S) <= A * (x * x) + B * 1).
+  { apply amgm; try lra. nra. }
+  nra.
+Qed.
+Definition matvec (n : nat) (A : qmat RR) (x : nat -> quatR) : nat -> quatR := fun i => sumQ n (fun j => qmul (A i j) (x j)).
+Definition vnorm2 (n : nat) (x : nat -> quatR) : R := @sumR RR n (fun j => N (x j)).
+Lemma rowsum_le_norminf m n (A : qmat RR) i : (i < m)%nat -> @sumR RR n (fun j => qabs (A i j)) <= norminf m n A.
+Proof. intros Hi. unfold norminf. apply (maxR_ge m (fun i => @sumR RR n (fun j => qabs (A i j))) i Hi). Qed.
+Lemma colsum_le_norm1 m n (A : qmat RR) j : (j < n)%nat -> colsum m A j <= norm1 m n A.
+Proof. intros Hj. unfold norm1. now apply maxR_ge. Qed.
+Theorem schur_test m n (A : qmat RR) (x : nat -> quatR) :
+  vnorm2 m (matvec n A x) <= norminf m n A * norm1 m n A * vnorm2 n x.
+Proof.
+  unfold vnorm2.
+  (* row by row *)
+  assert (Hrow : forall i, (i < m)%nat -> N (matvec n A x i) <= norminf m n A * @sumR RR n (fun j => qabs (A i j) * N (x j))).
+  { intros i Hi. unfold matvec.
+    pose proof (qabs_sum_le n (fun j => qmul (A i j) (x j))) as H1. cbv beta in H1.
+    rewrite (sumR_ext RR n (fun k => qabs (qmul (A i k) (x k))) (fun k => qabs (A i k) * qabs (x k))) in H1 by (intros; apply qabs_mul).
+    destruct (weighted_cs n (fun j => qabs (A i j)) (fun j => qabs (x j)) (fun j => qabs_nonneg _)) as (HA & HB & HS). cbv zeta in *.
+    set (S := @sumR RR n (fun j => qabs (A i j) * qabs (x j))) in *. set (Ar := @sumR RR n (fun j => qabs (A i j))) in *.
+    rewrite (sumR_ext RR n (fun j => qabs (A i j) * (qabs (x j) * qabs (x j))) (fun j => qabs (A i j) * N (x j))) in HS, HB by (intros; now rewrite qabs_sq).
+    set (B := @sumR RR n (fun j => qabs (A i j) * N (x j))) in *.
+    pose proof (qabs_nonneg (sumQ n (fun j => qmul (A i j) (x j)))) as H0. rewrite <- qabs_sq.
+    set (y := qabs (sumQ n (fun j => qmul (A i j) (x j)))) in *.
+    assert (Hy : y * y <= S * S) by nra.
+    pose proof (rowsum_le_norminf m n A i Hi) as Hr. fold Ar in Hr.
+    apply Rle_trans with (Ar * B); [lra|]. apply Rmult_le_compat_r; assumption. }
+  apply Rle_trans with (@sumR RR m (fun i => norminf m n A * @sumR RR n (fun j => qabs (A i j) * N (x j)))).
+  { apply sumRR_le. exact Hrow. }
+  rewrite sumR_mul_l. rr. rewrite Rmult_assoc. apply Rmult_le_compat_l; [apply maxR_nonneg|].
+  rewrite sumR_swap.
+  rewrite <- (sumR_mul_l RR n (norm1 m n A)). apply sumRR_le. intros j Hj. rr.
+  assert (E : @sumR RR m (fun i => qabs (A i j) * N (x j)) = colsum m A j * N (x j))
+    by (unfold colsum; apply (sumR_mul_r RR m (N (x j)) (fun i => qabs (A i j)))).
+  rewrite E. apply Rmult_le_compat_r; [apply N_nonneg|]. now apply colsum_le_norm1.
+Qed.
+
+(* ------------------------------------------------------------------------------------------------
+   The spectral norm as the least bound of ||A X||_F over ||X||_F (X any n x p block of vectors): the set of such bounds is closed under
+   the operations of the norm axioms, so the least one (the spectral norm, the largest singular value) satisfies them. *)
+From QV Require Import QMat.
+Definition op_bound (m n : nat) (A : qmat RR) (M : R) : Prop :=
+  0 <= M /\ forall p (X : qmat RR), normF m p (qmm n A X) <= M * normF n p X.
+Lemma normF_meq m n (A B : qmat RR) : meq m n A B -> normF m n A = normF m n B.
+Proof. intros E. unfold normF. now rewrite (frob2_meq RR m n A B E). Qed.
+Lemma normF_nonneg m n (A : qmat RR) : 0 <= normF m n A. Proof. apply sqrt_pos. Qed.
+Theorem op_bound_frobenius m n A : op_bound m n A (normF m n A).
+Proof. split; [apply normF_nonneg|]. intros p X. apply normF_submultiplicative. Qed.
+Theorem op_bound_triangle m n A B M K : op_bound m n A M -> op_bound m n B K -> op_bound m n (qmadd A B) (M + K).
+Proof.
+  intros [HM HA] [HK HB]. split; [lra|]. intros p X.
+  rewrite (normF_meq m p _ _ (qmm_add_l RR m n p A B X)).
+  eapply Rle_trans; [apply normF_triangle|]. specialize (HA p X). specialize (HB p X). lra.
+Qed.
+Theorem op_bound_submultiplicative m k n A B M K : op_bound m k A M -> op_bound k n B K -> op_bound m n (qmm k A B) (M * K).
+Proof.
+  intros [HM HA] [HK HB]. split; [now apply Rmult_le_pos|]. intros p X.
+  rewrite (normF_meq m p _ _ (qmm_assoc RR m k n p A B X)).
+  eapply Rle_trans; [apply HA|]. rewrite Rmult_assoc. apply Rmult_le_compat_l; [exact HM|]. apply HB.
+Qed.
+Lemma sumQ_qscale n (c : R) (f : nat -> quatR) : @qscale RR c (sumQ n f) = sumQ n (fun k => @qscale RR c (f k)).
+Proof. induction n as [|n IH]; cbn [sumQ]; [apply qeq; cbn [qscale qzero qw qx qy qz]; rr; ring|]. rewrite <- IH. apply qeq; cbn [qscale qadd qw qx qy qz]; rr; ring. Qed.
+Theorem op_bound_homogeneous m n A M c : op_bound m n A M -> op_bound m n (qmscale c A) (Rabs c * M).
+Proof.
+  intros [HM HA]. split; [apply Rmult_le_pos; [apply Rabs_pos | exact HM]|]. intros p X.
+  assert (E : meq m p (qmm n (qmscale c A) X) (qmscale c (qmm n A X))).
+  { intros i j _ _. unfold qmm, qmscale. rewrite sumQ_qscale. apply (sumQ_ext RR). intros l _. apply qeq; cbn [qmul qscale qw qx qy qz]; rr; ring. }
+  rewrite (normF_meq m p _ _ E), normF_homogeneous, Rmult_assoc. apply Rmult_le_compat_l; [apply Rabs_pos | apply HA].
+Qed.
